@@ -1108,6 +1108,7 @@ func init() {
 	})
 	registerEnvStubs()
 	registerCtxStubs()
+	registerRefStubs()
 }
 
 func fpToBits(t *Term) *Term {
